@@ -107,6 +107,19 @@ static void observe(St * st, Model & m, bool final_step)
 	for(int s = 0; s <= MAXN; s++) {
 		if(s < m.alloc || s == MAXN) vf_assert(st->list.ownsHandle(st->hs[s]) == m.isLive(s), 18);
 	}
+	if(final_step && m.cnt > 0) {
+		// an enumeration functor removes the handle it is visiting, twice: the second remove must report false, ownsHandle false
+		// (the visited node is still alive, kept by the enumeration); the model removes the first callback
+		bool first = true; bool r1 = false, r2 = true, own = true;
+		st->list.forEach([&](const CL::Handle & h, const CL::Callback &) {
+			if(first) { first = false; r1 = st->list.remove(h); r2 = st->list.remove(h); own = st->list.ownsHandle(h); }
+		});
+		vf_assert(r1 && ! r2 && ! own, 22);
+		m.remove(m.order[0]);
+		g_tr.clear(); st->list(a, b);
+		vf_assert(g_tr.n == m.cnt, 23);
+		for(int i = 0; i < m.cnt && i < g_tr.n; i++) vf_assert(g_tr.e[i].id == m.id[m.order[i]], 24);
+	}
 	if(final_step) {
 		// forEachIf stops exactly where asked (symbolic stop position)
 		uint32_t stop = vf_nondet_u32();
